@@ -397,26 +397,11 @@ func (dc *delimCtx) entryClosers() {
 	if h := dc.pm.infix["QUESTION"]; h != nil {
 		ents = append(ents, ent{"ternary \"?\"", h.fn, "COLON"})
 	}
-	// embedded code: the parseStatement case for LBRACES
+	// embedded code: what parseStatement calls first when the current token is "{{"
+	// (evaluated by constant propagation of the token type through the dispatch, whatever its shape)
 	if ps := m.Method("parser", "Parser", "parseStatement"); ps != nil {
-		for _, b := range ps.Blocks {
-			facts := expandFacts(factsAt(b))
-			isLB := false
-			for _, f := range facts {
-				if bo, ok := f.Cond.(*ssa.BinOp); ok && f.Holds && bo.Op == token.EQL {
-					if k, ok := bo.Y.(*ssa.Const); ok && k.Value != nil && k.Int64() == tv["LBRACES"] {
-						isLB = true
-					}
-				}
-			}
-			if !isLB {
-				continue
-			}
-			for _, in := range b.Instrs {
-				if call, ok := in.(*ssa.Call); ok && call.Call.StaticCallee() != nil && shortPkg(fnPkgPath(call.Call.StaticCallee())) == "parser" {
-					ents = append(ents, ent{"embedded code \"{{\"", call.Call.StaticCallee(), "RBRACES"})
-				}
-			}
+		if fn := m.firstParserCall(ps, tv["LBRACES"], dc.pm); fn != nil {
+			ents = append(ents, ent{"embedded code \"{{\"", fn, "RBRACES"})
 		}
 	}
 	seenLB := false
@@ -650,3 +635,21 @@ func returnsInState(li *loopInfo, ev condEval) []*ssa.Return {
 }
 
 var _ = strings.TrimSpace
+
+// firstParserCall: the first parser-package function that fn calls when the current token has type cur
+// (nil if the dispatch cannot be evaluated or calls nothing).
+func (m *Model) firstParserCall(fn *ssa.Function, cur int64, pm *prattModel) *ssa.Function {
+	ip := m.parserInterp(cur, -1, pm.precLit, nil)
+	var first *ssa.Function
+	ip.event = func(c ssa.CallInstruction, depth int) bool {
+		sc := c.Common().StaticCallee()
+		if depth == 0 && sc != nil && shortPkg(fnPkgPath(sc)) == "parser" && sc.Signature.Results().Len() == 1 && !isBoolT(sc.Signature.Results().At(0).Type()) {
+			first = sc
+			return true
+		}
+		return false
+	}
+	args := make([]any, len(fn.Params))
+	ip.Run(fn, args)
+	return first
+}
